@@ -42,6 +42,9 @@ def strategy(tier):
         fluid=st.booleans(),
         tendons=st.integers(0, 2),
         spatial_tendons=st.integers(0, 2),
+        # tendon armature: its bias term (J-dot of the tendon Jacobian, incl. sites on spinning free bodies) is second order in the armature
+        armature_p=st.sampled_from([0.3, 0.9]),
+        armature_max=st.sampled_from([0.1, 2.0]),
         wrap=st.booleans(),
         chains=st.sampled_from(_CHAIN_MENU),
         geom_menu=st.sampled_from([["sphere", "capsule", "box"], ["ellipsoid", "cylinder", "box", "sphere", "capsule"]]),
